@@ -78,6 +78,14 @@ def _inst(q, m):
 # ----------------------------------------------------------------------------------
 
 
+def probe_index(n):
+    """fresh index constrained to [0, n) used to inspect the generic element of a symbolic list"""
+    c = cur()
+    k = c.fresh_int("probe")
+    c.fact(z3.And(k >= 0, k < zi(n)))
+    return k
+
+
 def is_arraylike(x):
     return isinstance(x, (Arr, list, tuple, Seq))
 
@@ -118,7 +126,7 @@ def asarray(x, kind=None):
         raise Unsupported("np.array of mixed list")
     if isinstance(x, Seq):
         n = x.length
-        probe = x.get(cur().fresh_int("probe"))
+        probe = x.get(probe_index(n))
         if is_scalar(probe):
             k = kind or sym.kind_of(probe)
             return Arr(((n,),), lambda idx, x=x, k=k: sym.cast(x.get(idx[0][0]), k), k)
@@ -664,14 +672,14 @@ def _stack_axis(items, axis):
     """concatenate arrays (list, or Seq with uniform extents) along `axis`."""
     if isinstance(items, Seq):
         n = items.length
-        probe = items.get(cur().fresh_int("probe"))
+        probe = items.get(probe_index(n))
         if not isinstance(probe, Arr):
             raise Unsupported("stack of a symbolic list of non-arrays")
         nd = probe.ndim
         axis %= nd
         # extents along `axis` must not depend on the element index: checked structurally by
         # evaluating at two different indices
-        p2 = items.get(cur().fresh_int("probe"))
+        p2 = items.get(probe_index(n))
         if not same_axes(probe.axes[axis], p2.axes[axis]):
             raise Unsupported("stack of a symbolic list with varying block extents")
         ax = list(probe.axes)
@@ -767,7 +775,7 @@ def concatenate(items, axis=0):
 
 def _first_ndim(items):
     if isinstance(items, Seq):
-        return items.get(cur().fresh_int("probe")).ndim
+        return items.get(probe_index(items.length)).ndim
     return asarray(items[0]).ndim
 
 
@@ -809,21 +817,27 @@ def _norm_bound(b, n, default):
         if not is_int(b):
             raise Unsupported(f"slice bound of type {type(b).__name__}")
     c = cur()
+
+    def decide(cond):
+        # prefer a validity check (no fork) over a case split
+        if c.is_valid(cond):
+            return True
+        return c.branch(cond)
     if is_pyint(b):
         if b >= 0:
             if is_pyint(n):
                 return min(b, n)
             if b == 0:
                 return 0
-            return b if c.branch(zi(n) >= b) else n
+            return b if decide(zi(n) >= b) else n
         r = sym.add(n, b)
         if is_pyint(r):
             return max(r, 0)
-        return r if c.branch(zi(r) >= 0) else 0
-    if c.branch(zi(b) >= 0):
-        return b if c.branch(zi(b) <= zi(n)) else n
+        return r if decide(zi(r) >= 0) else 0
+    if decide(zi(b) >= 0):
+        return b if decide(zi(b) <= zi(n)) else n
     r = sym.add(n, b)
-    return r if c.branch(zi(r) >= 0) else 0
+    return r if decide(zi(r) >= 0) else 0
 
 
 def getitem(a, key):
@@ -1158,6 +1172,54 @@ def _rd(vfn, varr, idx, a):
 # ----------------------------------------------------------------------------------
 
 
+def _depends(e, ids):
+    st = [e]
+    seen = set()
+    while st:
+        x = st.pop()
+        if x.get_id() in seen:
+            continue
+        seen.add(x.get_id())
+        if x.get_id() in ids:
+            return True
+        st.extend(x.children())
+    return False
+
+
+def factor_out(e, bvars):
+    """real expression -> (independent factor, dependent part): pulls multiplicative factors that do not
+    mention the bound variables out of a summand (sum_t c*f(t) = c * sum_t f(t))."""
+    ids = {v.get_id() for v in bvars}
+    e = z3.simplify(e)
+    indep = []
+    dep = []
+
+    def split(x):
+        if not _depends(x, ids):
+            indep.append(x)
+        elif z3.is_mul(x):
+            for ch in x.children():
+                split(ch)
+        elif z3.is_div(x) and not _depends(x.arg(1), ids):
+            indep.append(1 / x.arg(1))
+            split(x.arg(0))
+        elif z3.is_app(x) and x.decl().kind() == z3.Z3_OP_UMINUS:
+            indep.append(z3.RealVal(-1))
+            split(x.arg(0))
+        else:
+            dep.append(x)
+    split(e)
+    fi = z3.RealVal(1)
+    for x in indep:
+        fi = fi * x
+    if not dep:
+        return z3.simplify(fi), None
+    fd = dep[0]
+    for x in dep[1:]:
+        fd = fd * x
+    return z3.simplify(fi), z3.simplify(fd)
+
+
 class SumInfo:
     def __init__(self, extents, summand, comps):
         self.extents = extents      # tuple of extents (one per bound variable)
@@ -1173,7 +1235,8 @@ def make_sum(extents, summand):
     if any(is_pyint(n) and n == 0 for n in extents):
         return F(False, z3.RealVal(0))
     tot = prod(extents)
-    if is_pyint(tot) and tot <= 8 and all(is_pyint(n) for n in extents):
+    lim = 8 if getattr(c, "tol", None) is None else 20000
+    if is_pyint(tot) and tot <= lim and all(is_pyint(n) for n in extents):
         # tiny concrete sums are unfolded
         import itertools
         acc = None
@@ -1215,16 +1278,31 @@ def make_sum(extents, summand):
         s = mk(zi(body), z3.IntSort(), "i")
         sums[s.sexpr()] = SumInfo(extents, summand, (s,))
         return s
+    rng_b = And_(*[And_(bv >= 0, bv < zi(n)) for bv, n in zip(bvars, extents)])
+
+    def nanflag(nan):
+        if nan is False:
+            return False
+        if not ovars and c.is_valid(zb(Implies_(rng_b, Not_(nan)))):
+            return False
+        return mk(zb(nan), z3.BoolSort(), "n")
     if k == "float":
         body = sym.toF(body)
-        v = mk(body.v, z3.RealSort(), "r")
-        nan = False if body.nan is False else mk(zb(body.nan), z3.BoolSort(), "n")
-        sums[v.sexpr()] = SumInfo(extents, summand, (v,))
-        return F(nan, v)
+        nan = nanflag(body.nan)
+        coef, dep = factor_out(body.v, bvars)
+        if dep is None:
+            return F(nan, coef * z3.ToReal(zi(tot)) if True else coef)
+        v = mk(dep, z3.RealSort(), "r")
+
+        def unit_summand(t, summand=summand, coef=coef):
+            x = sym.toF(summand(t))
+            return F(x.nan, x.v / coef)
+        sums[v.sexpr()] = SumInfo(extents, unit_summand, (v,))
+        return F(nan, z3.simplify(coef * v))
     body = sym.toC(body)
     re = mk(body.re, z3.RealSort(), "re")
     im = mk(body.im, z3.RealSort(), "im")
-    nan = False if body.nan is False else mk(zb(body.nan), z3.BoolSort(), "n")
+    nan = nanflag(body.nan)
     sums[re.sexpr()] = SumInfo(extents, summand, (re, im))
     sums[im.sexpr()] = SumInfo(extents, summand, (re, im))
     return C(nan, re, im)
